@@ -19,7 +19,7 @@ RULE = ('sources (G-doc documents with metadata, corpus files, the statefulness 
         'agree (archives member by member under the UUID/date mask); has_metadata/keys/value/update agree across the three families; every '
         'variant that returns something returns non-NULL and every to_file variant leaves a non-empty file. Non-trivial: >=6 variants compared '
         'and output longer than the empty-document output; distinct by (source, fmt, ext, lang).')
-ASSUMPTIONS = ['CLI legs use sources without mmd header/footer metadata, transclusion markers or CriticMarkup, so main.c\'s pre-processing is the identity',
+ASSUMPTIONS = ['CLI legs use sources without transclusion markers or CriticMarkup; for sources with MMD Header / MMD Footer metadata (which main.c splices into the text) the three CLI routes stdout, -o and -b are compared with one another instead of with the library',
                'FORMAT_MMD and FORMAT_HTML_WITH_ASSETS are not in the statement\'s lists and are not compared',
                'packaged formats are compared under the mask of lib/pkg.py (UUIDs, dcterms:modified, zip timestamps)']
 
@@ -28,8 +28,9 @@ PACK = ['fodt', 'epub', 'odt', 'bundlezip', 'itmz', 'bundle']
 CLI_EXT = {'epub': '.epub', 'html': '.html', 'latex': '.tex', 'beamer': '.tex', 'memoir': '.tex', 'fodt': '.fodt', 'odt': '.odt',
            'bundlezip': '.textpack', 'opml': '.opml', 'itmz': '.itmz', 'bundle': '.textbundle'}
 LANGS = ['en', 'es', 'de', 'fr', 'nl', 'sv', 'he']
-META = st.lists(st.tuples(st.sampled_from(['Title', 'Author', 'Date', 'css', 'Base Header Level', 'language', 'Keywords', 'latex config', 'My Key']),
-                          st.sampled_from(['A Title', 'Jane & John', '2020', 'style.css', '2', 'de', 'a, b', 'article', 'x "y" <z>'])),
+META = st.lists(st.one_of(st.tuples(st.sampled_from(['Title', 'Author', 'Date', 'css', 'Base Header Level', 'language', 'Keywords', 'latex config', 'My Key']),
+                                    st.sampled_from(['A Title', 'Jane & John', '2020', 'style.css', '2', 'de', 'a, b', 'article', 'x "y" <z>'])),
+                          st.tuples(st.sampled_from(['MMD Header', 'MMD Footer']), st.sampled_from(['Added *paragraph* from the metadata.', '[sharedref]: http://example.com/shared']))),
                 min_size=0, max_size=4, unique_by=lambda t: t[0])
 CFG = gdoc.Cfg(inlines=['t', 'em', 'st', 'code', 'link', 'img', 'auto', 'email', 'esc', 'smart', 'fnref', 'ifn', 'ent', 'bare'],
                blocks=['para', 'atx', 'setext', 'hr', 'fence', 'icode', 'quote', 'list', 'table', 'figure', 'toc', 'deflist'],
@@ -159,14 +160,18 @@ def check(case, ctx):
         ctx.cls('metadata_families_compared')
         compared += 3
     # CLI legs
-    if cli_ok and case['cli'] == 0 and fmt != 'bundle' and '{{' not in src and '{++' not in src and '{--' not in src and '{~~' not in src \
-            and 'mmd header' not in src.lower() and 'mmd footer' not in src.lower():
+    # a source with `MMD Header` / `MMD Footer` metadata is pre-processed by main.c (text prepended / appended before conversion): the three
+    # CLI routes must still agree with one another; the library reference is only comparable without that pre-processing
+    preprocessed = 'mmd header' in src.lower() or 'mmd footer' in src.lower()
+    if cli_ok and (case['cli'] == 0 or preprocessed) and fmt != 'bundle' and '{{' not in src and '{++' not in src and '{--' not in src and '{~~' not in src:
         cli = vbuild.cli('asan')
         env = dict(os.environ, ASAN_OPTIONS='detect_leaks=0')
         d = os.path.join(tmp, 'cli')
         os.makedirs(d)
         f = os.path.join(d, 'in.txt')
         open(f, 'wb').write(src.encode('utf-8', 'surrogateescape'))
+        for asset in ('pic.png', 'style.css'):          # assets next to the document: the CLI must find them where the library does
+            shutil.copy(os.path.join(fix, asset), os.path.join(d, asset))
         base = [cli] + case['flags'] + ['-t', fmt, '-l', LANGS[lang]]
         # the CLI always passes the file's directory: compare with the library leg that got the same directory
         libref = w.convert(src, fmt, ext, lang, api='sd', directory=d).out
@@ -175,6 +180,9 @@ def check(case, ctx):
         p2 = subprocess.run(base + ['-o', o, f], stdout=subprocess.PIPE, stderr=subprocess.PIPE, env=env)
         p3 = subprocess.run(base + ['-b', f], stdout=subprocess.PIPE, stderr=subprocess.PIPE, env=env)
         bfile = os.path.join(d, 'in' + CLI_EXT[fmt])
+        if preprocessed and '-c' not in case['flags']:
+            libref = p1.stdout
+            ctx.cls('cli_legs_with_mmd_header_footer')
         for name, p, got in (('stdout', p1, p1.stdout), ('-o', p2, open(o, 'rb').read() if os.path.exists(o) else None),
                              ('-b', p3, open(bfile, 'rb').read() if os.path.exists(bfile) else None)):
             if p.returncode != 0:
